@@ -58,6 +58,8 @@ def stepLastRune (ins impl : List String) : Option String := do
 structure DL where
   l : LState
   prev : ListObs
+  /-- the list's URL: (host index, version) -/
+  url : Nat × Nat
 
 abbrev St := List DL
 
@@ -75,14 +77,16 @@ def stepReset (ins : List String) : Option (St × String) := do
     if rest.length != 3 * n then none
     else
       let rec go : List String → Option St
-        | a :: e :: _ :: tl => do
+        | a :: e :: src :: tl => do
           let a ← parseBool a
           let e ← parseBool e
           let tlr ← go tl
-          pure (⟨⟨⟨e, 0, 0, none⟩, a, none⟩, ⟨0, 0, none, 0, false⟩⟩ :: tlr)
+          -- a local-file list has a path, never equal to an HTTP URL: mark it
+          pure (⟨⟨⟨e, 0, 0, none⟩, a, none⟩, ⟨0, 0, none, 0, false⟩, (if src == "L" then 1 else 0, 0)⟩ :: tlr)
         | [] => some []
         | _ => none
       let st ← go rest
+      let st := (List.range st.length).filterMap fun i => (st[i]?).map fun d => { d with url := (if d.url.1 == 1 then 1000000 + i else i, 0) }
       pure (st, verdict true none "ok")
   | _ => none
 
@@ -135,9 +139,54 @@ def stepRefresh (st : St) (ins impl : List String) : Option (St × String) := do
           let st' := (List.range st.length).filterMap fun i => do
             let new ← ls'[i]?
             let o ← obs[i]?
-            pure (⟨new, o⟩ : DL)
+            let d ← st[i]?
+            pure (⟨new, o, d.url⟩ : DL)
           pure (st', verdict agree (whys.head?.map ("C15." ++ ·)) m)
       | none => pure (st, verdict false none m)
+  | _ => none
+
+def stepSetURL (st : St) (ins impl : List String) : Option (St × String) := do
+  match ins with
+  | [i, j, k, en, kind, data, complete] =>
+    let i ← i.toNat?
+    let newURL : Nat × Nat := (← j.toNat?, ← k.toNat?)
+    let en ← parseBool en
+    let data ← hexDecode data
+    let complete ← parseBool complete
+    let f ← (if kind == "F" then some Fetch.fail else if kind == "B" then some (Fetch.body data complete) else none)
+    let d ← st[i]?
+    let changed := newURL != d.url
+    let dup := (List.range st.length).any fun x => x != i && ((st[x]?).map (·.url) == some newURL)
+    let rq : SetReq := ⟨changed, dup, en⟩
+    let o := setProps d.l.flt rq f
+    let (ls', res) := setURLStep (st.map (·.l)) i rq f
+    let okS := match res with | .ok _ => true | .err => false
+    let rows := (List.range st.length).filterMap fun x => do
+      let new ← ls'[x]?
+      let rew := x == i && (match res with | .ok true => (updateIntl (if changed then 0 else d.l.flt.checksum) f).isSome && en | _ => false)
+      pure ("\t".intercalate [toString new.flt.count, toString new.flt.checksum, showFile new.flt.file,
+        toString (maskOf x new.inForce), if rew then "1" else "0"])
+    let m := "\t".intercalate ((if okS then "200" else "400") :: (if o.urlChanged then "1" else "0") :: rows)
+    let agree := m == "\t".intercalate impl
+    match impl with
+    | status :: uc :: rest =>
+      match parseObsList rest, parseBool uc with
+      | some obs, some ucI =>
+        if obs.length != st.length then pure (st, verdict false none m)
+        else
+          let whys := (List.range st.length).filterMap fun x => do
+            let dx ← st[x]?
+            let o ← obs[x]?
+            if x == i then setSpecWhy dx.prev (status == "200") ucI f o
+            else refreshSpecWhy x dx.prev Fetch.fail false o
+          let st' := (List.range st.length).filterMap fun x => do
+            let new ← ls'[x]?
+            let o ← obs[x]?
+            let dx ← st[x]?
+            pure (⟨new, o, if x == i && ucI then newURL else dx.url⟩ : DL)
+          pure (st', verdict agree (whys.head?.map ("C15." ++ ·)) m)
+      | _, _ => pure (st, verdict false none m)
+    | _ => pure (st, verdict false none m)
   | _ => none
 
 def step (st : St) (line : String) : St × String :=
@@ -152,6 +201,7 @@ def step (st : St) (line : String) : St × String :=
       | "C15.lastrune" => (st, (stepLastRune ins impl).getD "bad-op")
       | "C15.reset" => (match stepReset ins with | some (s, o) => (s, o) | none => (st, "bad-op"))
       | "C15.refresh" => (match stepRefresh st ins impl with | some (s, o) => (s, o) | none => (st, "bad-op"))
+      | "C15.seturl" => (match stepSetURL st ins impl with | some (s, o) => (s, o) | none => (st, "bad-op"))
       | _ => (st, "bad-op")
   | [] => (st, "bad-op")
 
